@@ -41,6 +41,13 @@ def seam_of(sc):
 
 
 def execute(case):
+    """every injected case runs in its own forked child: a (correct) cache of derivation results filled under another PRF
+    substitute earlier in the same process must not be able to answer in place of the substituted function"""
+    from ..core import isolated
+    return isolated(_execute, case)
+
+
+def _execute(case):
     sc = case["sc"]
     ov = {(bytes.fromhex(o["key"]), bytes.fromhex(o["msg"])): (o["half"], int(o["val"], 16)) for o in case["inj"]}
     label = "+".join(o["label"] for o in case["inj"]) or "none"
@@ -79,6 +86,10 @@ def execute(case):
             viols.append(V("%s:%s:%s:invalid-node-stored" % (P, seam, last), "after %s with answer %s the tree holds %s" % (seam, label, bad)))
             oc = "violation"
     consumed = total_hits > 0
+    if case["inj"] and impl_hits == 0 and exp[0] == "exc" and got[0] == "ok":
+        # the implementation never asked the substituted function for this (key, msg): the seam did not reach it, so its
+        # answer says nothing about the injected value. Not a verdict; run() turns a lost seam into a harness error.
+        return R("injection-not-consumed-by-implementation", nontrivial=False, viols=[], extra={"impl_hits": 0})
     return R(oc if consumed else "answer-not-reached", nontrivial=consumed, viols=viols,
              extra={"impl_hits": impl_hits} if case["inj"] else None)
 
@@ -238,8 +249,9 @@ def run(ctx):
     cases, stats = isolated(enumerate_all)     # recording runs the implementation: done in a child, the parent stays pristine
     agg = ctx.product("prf-answers", cases, execute, chunk=8)
     hits = [x["impl_hits"] for x in agg["x"]]
-    if hits and not any(hits):
-        raise HarnessError("seam lost: no injected answer was ever consumed by the implementation")
+    if hits and sum(1 for h in hits if h) < 0.5 * len(hits):
+        raise HarnessError("seam lost: only %d of %d injected answers were consumed by the implementation (HMAC-SHA512 is reached "
+                           "through a route the harness does not own)" % (sum(1 for h in hits if h), len(hits)))
     return {"scenarios": len(scs), "prf_call_positions": stats["positions"], "impl_calls_unknown_to_reference": stats["impl_only_calls"],
             "injections": len(cases), "injections_consumed_by_impl": sum(1 for h in hits if h), "deviation_bound": 2,
             "answers": [a[2] for a in INVALID + VALID] + ["master:" + a[2] for a in MASTER_ANS] + ["bip85:" + b[1] for b in B85_VALUES]}
